@@ -188,6 +188,39 @@ pub fn gen_c07(rng: &mut Rng, tier: Tier) -> Case {
         }
         c.inserts = Entries::Literal(ins);
         c.alt_knobs.clear();
+    } else if rng.chance(1, 24) {
+        // entries that occupy no bytes at all — ("", "") — next to other values of the empty key, in
+        // a buffer holding enough entries for the sort to leave its small-slice path: only the
+        // position of an empty value among its siblings tells a stable sort from an unstable one
+        let mut ins: Vec<(B, B)> = Vec::new();
+        let mut id = 0u32;
+        let fillers = rng.urange(24, 160);
+        let runs = rng.urange(1, 4);
+        let at: Vec<usize> = (0..runs).map(|_| rng.urange(0, fillers)).collect();
+        let other: Vec<u8> = if rng.chance(1, 2) { Vec::new() } else { vec![*rng.pick(&gen::ALPHA)] };
+        for i in 0..=fillers {
+            if at.contains(&i) {
+                let k = if rng.chance(2, 3) { Vec::new() } else { other.clone() };
+                let n = rng.urange(2, 6);
+                let full_at = rng.urange(0, n - 1);
+                for j in 0..n {
+                    let v = if j == full_at || rng.chance(1, 5) { gen::record(id, rng.urange(0, 3)) } else { Vec::new() };
+                    id += 1;
+                    ins.push((B(k.clone()), B(v)));
+                }
+            }
+            let key = vec![*rng.pick(&gen::ALPHA); rng.urange(1, 2)];
+            ins.push((B(key), B(gen::record(id, rng.urange(0, 8)))));
+            id += 1;
+        }
+        c.inserts = Entries::Literal(ins);
+        c.knobs.unstable = false;
+        for a in c.alt_knobs.iter_mut() {
+            a.unstable = false;
+        }
+        c.knobs.raw_threshold = Some(*rng.pick(&[4096usize, 16384, 65536]));
+        c.knobs.init_cap = c.knobs.init_cap.map(|x| x.min(4096));
+        c.mf = *rng.pick(&[MergeKind::Join, MergeKind::Join, MergeKind::First, MergeKind::Last]);
     }
     Case::Sort(c)
 }
@@ -277,6 +310,25 @@ fn judge_output(
                     w.sort();
                     if got != w {
                         return Some(("value-multiset".into(), format!("key {:02x?}: merged records are not the multiset of inserted values", k)));
+                    }
+                }
+            }
+            MergeKind::Join => {
+                let want = mvals.join(&0x1Fu8);
+                if !unstable {
+                    if *v != want {
+                        return Some((
+                            "value-order".into(),
+                            format!("key {:02x?}: value is not its {} inserted values joined in insertion order ({} bytes, expected {})", k, mvals.len(), v.len(), want.len()),
+                        ));
+                    }
+                } else {
+                    // any order of the same values: same length and the same bytes
+                    let (mut a, mut b) = (v.clone(), want.clone());
+                    a.sort_unstable();
+                    b.sort_unstable();
+                    if a != b {
+                        return Some(("value-multiset".into(), format!("key {:02x?}: joined value does not hold the bytes of the inserted values", k)));
                     }
                 }
             }
@@ -504,7 +556,7 @@ pub fn gen_c08_with(rng: &mut Rng, tier: Tier, real_scale: bool) -> Case {
     };
     if let Some(k) = fault_k {
         // err % 4 == 0: the creator (or a chunk) fails with a plain io::Error
-        c08.env.faults = vec![crate::env::FaultSpec { k, err: 4 * rng.below(9) as u8, sticky: false }];
+        c08.env.faults = vec![crate::env::FaultSpec { k, err: 4 * rng.below(9) as u8, sticky: false, merge_nth: 0 }];
     }
     Case::Sort(c08)
 }
